@@ -1,7 +1,452 @@
-// Package c13 interprets the C13 op language against the real packages (stub).
+// Package c13 interprets the C13 op language against the real rule managers (flow, isolation, hotspot,
+// circuit breaker, system, outlier) and probes the enforced rules with real traffic through api.Entry.
+//
+// Every load builds freshly allocated rule objects from the op line (the property's callers do so).
 package c13
 
-import "verifharness/internal/vh"
+import (
+	"errors"
+	"fmt"
+	"strconv"
+	"strings"
 
-// New returns the interpreter for C13.
-func New() vh.Interp { return nil }
+	sentinel "github.com/alibaba/sentinel-golang/api"
+	"github.com/alibaba/sentinel-golang/core/base"
+	cb "github.com/alibaba/sentinel-golang/core/circuitbreaker"
+	"github.com/alibaba/sentinel-golang/core/flow"
+	"github.com/alibaba/sentinel-golang/core/hotspot"
+	"github.com/alibaba/sentinel-golang/core/isolation"
+	"github.com/alibaba/sentinel-golang/core/outlier"
+	"github.com/alibaba/sentinel-golang/core/stat"
+	"github.com/alibaba/sentinel-golang/core/system"
+	"github.com/alibaba/sentinel-golang/core/system_metric"
+	"verifharness/internal/vh"
+)
+
+type Interp struct {
+	clk *vh.Clock
+}
+
+func New() vh.Interp {
+	vh.Silence()
+	return &Interp{clk: vh.NewClock(1_900_000_000_000)}
+}
+
+const idleMs = 100_000
+
+func (it *Interp) idle() { it.clk.Ns += idleMs * 1e6 }
+
+func (it *Interp) Reset() {
+	_ = flow.ClearRules()
+	_ = isolation.ClearRules()
+	_ = hotspot.ClearRules()
+	_ = cb.ClearRules()
+	_ = system.ClearRules()
+	_ = outlier.ClearRules()
+	stat.ResetResourceNodeMap()
+	system_metric.SetSystemLoad(4)
+	system_metric.SetSystemCpuUsage(0.75)
+	it.idle()
+}
+
+func str(s string) string {
+	if s == "_" {
+		return ""
+	}
+	return s
+}
+
+func ustr(s string) string {
+	if s == "" {
+		return "_"
+	}
+	return s
+}
+
+func half(s string) float64 { return float64(vh.I(s)) / 2 }
+
+// halves prints a float that is a multiple of 1/2 as the integer number of halves.
+func halves(f float64) string { return strconv.FormatInt(int64(f*2), 10) }
+
+func parseFlow(s string) *flow.Rule {
+	f := strings.Split(s, ",")
+	if len(f) != 14 {
+		panic("bad flow rule " + s)
+	}
+	return &flow.Rule{Resource: str(f[0]), TokenCalculateStrategy: flow.TokenCalculateStrategy(vh.I(f[1])),
+		ControlBehavior: flow.ControlBehavior(vh.I(f[2])), Threshold: half(f[3]), RelationStrategy: flow.RelationStrategy(vh.I(f[4])),
+		RefResource: str(f[5]), MaxQueueingTimeMs: uint32(vh.U(f[6])), WarmUpPeriodSec: uint32(vh.U(f[7])), WarmUpColdFactor: uint32(vh.U(f[8])),
+		StatIntervalInMs: uint32(vh.U(f[9])), LowMemUsageThreshold: vh.I(f[10]), HighMemUsageThreshold: vh.I(f[11]),
+		MemLowWaterMarkBytes: vh.I(f[12]), MemHighWaterMarkBytes: vh.I(f[13])}
+}
+
+func showFlow(r *flow.Rule) string {
+	return fmt.Sprintf("%s,%d,%d,%s,%d,%s,%d,%d,%d,%d,%d,%d,%d,%d", ustr(r.Resource), r.TokenCalculateStrategy, r.ControlBehavior, halves(r.Threshold),
+		r.RelationStrategy, ustr(r.RefResource), r.MaxQueueingTimeMs, r.WarmUpPeriodSec, r.WarmUpColdFactor, r.StatIntervalInMs,
+		r.LowMemUsageThreshold, r.HighMemUsageThreshold, r.MemLowWaterMarkBytes, r.MemHighWaterMarkBytes)
+}
+
+func parseIso(s string) *isolation.Rule {
+	f := strings.Split(s, ",")
+	if len(f) != 3 {
+		panic("bad isolation rule " + s)
+	}
+	return &isolation.Rule{Resource: str(f[0]), MetricType: isolation.MetricType(vh.I(f[1])), Threshold: uint32(vh.U(f[2]))}
+}
+
+func showIso(r *isolation.Rule) string {
+	return fmt.Sprintf("%s,%d,%d", ustr(r.Resource), r.MetricType, r.Threshold)
+}
+
+func parseHot(s string) *hotspot.Rule {
+	f := strings.Split(s, ",")
+	if len(f) != 11 {
+		panic("bad hotspot rule " + s)
+	}
+	r := &hotspot.Rule{Resource: str(f[0]), MetricType: hotspot.MetricType(vh.I(f[1])), ControlBehavior: hotspot.ControlBehavior(vh.I(f[2])),
+		ParamIndex: int(vh.I(f[3])), ParamKey: str(f[4]), Threshold: vh.I(f[5]), MaxQueueingTimeMs: vh.I(f[6]), BurstCount: vh.I(f[7]),
+		DurationInSec: vh.I(f[8]), ParamsMaxCapacity: vh.I(f[9])}
+	switch it := vh.U(f[10]); it {
+	case 0:
+	case 1:
+		r.SpecificItems = map[interface{}]int64{}
+	default:
+		r.SpecificItems = map[interface{}]int64{int(it - 2): 1}
+	}
+	return r
+}
+
+func showHot(r *hotspot.Rule) string {
+	items := "0"
+	if r.SpecificItems != nil {
+		items = "1"
+		if len(r.SpecificItems) == 1 {
+			for k := range r.SpecificItems {
+				items = strconv.Itoa(k.(int) + 2)
+			}
+		} else if len(r.SpecificItems) > 1 {
+			items = "many"
+		}
+	}
+	mq, bc := "*", "*"
+	if r.ControlBehavior == hotspot.Throttling {
+		mq = strconv.FormatInt(r.MaxQueueingTimeMs, 10)
+	}
+	if r.ControlBehavior == hotspot.Reject {
+		bc = strconv.FormatInt(r.BurstCount, 10)
+	}
+	return fmt.Sprintf("%s,%d,%d,%d,%s,%d,%s,%s,%d,%d,%s", ustr(r.Resource), r.MetricType, r.ControlBehavior, r.ParamIndex, ustr(r.ParamKey),
+		r.Threshold, mq, bc, r.DurationInSec, r.ParamsMaxCapacity, items)
+}
+
+func parseCb(s string) *cb.Rule {
+	f := strings.Split(s, ",")
+	if len(f) != 9 {
+		panic("bad circuit breaker rule " + s)
+	}
+	return &cb.Rule{Resource: str(f[0]), Strategy: cb.Strategy(vh.U(f[1])), RetryTimeoutMs: uint32(vh.U(f[2])), MinRequestAmount: vh.U(f[3]),
+		StatIntervalMs: uint32(vh.U(f[4])), StatSlidingWindowBucketCount: uint32(vh.U(f[5])), MaxAllowedRtMs: vh.U(f[6]),
+		Threshold: half(f[7]), ProbeNum: vh.U(f[8])}
+}
+
+func showCb(r *cb.Rule) string {
+	return fmt.Sprintf("%s,%d,%d,%d,%d,%d,%d,%s,%d", ustr(r.Resource), r.Strategy, r.RetryTimeoutMs, r.MinRequestAmount, r.StatIntervalMs,
+		r.StatSlidingWindowBucketCount, r.MaxAllowedRtMs, halves(r.Threshold), r.ProbeNum)
+}
+
+func parseSys(s string) *system.Rule {
+	f := strings.Split(s, ",")
+	if len(f) != 3 {
+		panic("bad system rule " + s)
+	}
+	return &system.Rule{MetricType: system.MetricType(vh.U(f[0])), TriggerCount: half(f[1]), Strategy: system.AdaptiveStrategy(vh.I(f[2]))}
+}
+
+func showSys(r *system.Rule) string {
+	return fmt.Sprintf("%d,%s,%d", r.MetricType, halves(r.TriggerCount), r.Strategy)
+}
+
+func parseOut(s string) *outlier.Rule {
+	f := strings.Split(s, ";")
+	if len(f) != 3 {
+		panic("bad outlier rule " + s)
+	}
+	r := &outlier.Rule{MaxEjectionPercent: half(f[0]), RecoveryIntervalMs: uint32(vh.U(f[1]))}
+	if f[2] != "-" {
+		r.Rule = parseCb(f[2])
+	}
+	return r
+}
+
+func showOut(r *outlier.Rule) string {
+	in := "-"
+	if r.Rule != nil {
+		in = showCb(r.Rule)
+	}
+	return fmt.Sprintf("%s;%d;%s", halves(r.MaxEjectionPercent), r.RecoveryIntervalMs, in)
+}
+
+func outcome(ch bool, err error) string {
+	switch {
+	case ch && err == nil:
+		return "changed"
+	case !ch && err == nil:
+		return "unchanged"
+	case !ch:
+		return "err"
+	default:
+		return "changed-err"
+	}
+}
+
+func okErr(err error) string {
+	if err != nil {
+		return "err"
+	}
+	return "ok"
+}
+
+// ruleToks returns the n rule tokens following t[i] (= n).
+func ruleToks(t []string, i int) []string {
+	n := int(vh.U(t[i]))
+	if len(t) != i+1+n {
+		panic("bad rule count")
+	}
+	return t[i+1:]
+}
+
+func (it *Interp) Step(t []string, op string) string {
+	switch t[0] {
+	case "load":
+		return it.load(t[1], "", ruleToks(t, 2), false)
+	case "loadres":
+		return it.load(t[1], str(t[2]), ruleToks(t, 3), true)
+	case "clear":
+		switch t[1] {
+		case "flow":
+			return okErr(flow.ClearRules())
+		case "iso":
+			return okErr(isolation.ClearRules())
+		case "hot":
+			return okErr(hotspot.ClearRules())
+		case "cb":
+			return okErr(cb.ClearRules())
+		case "sys":
+			return okErr(system.ClearRules())
+		case "out":
+			return okErr(outlier.ClearRules())
+		}
+	case "clearres":
+		res := str(t[2])
+		switch t[1] {
+		case "flow":
+			return okErr(flow.ClearRulesOfResource(res))
+		case "iso":
+			return okErr(isolation.ClearRulesOfResource(res))
+		case "hot":
+			return okErr(hotspot.ClearRulesOfResource(res))
+		case "cb":
+			return okErr(cb.ClearRulesOfResource(res))
+		case "out":
+			return okErr(outlier.ClearRuleOfResource(res))
+		}
+	case "get":
+		var xs []string
+		switch t[1] {
+		case "flow":
+			for _, r := range flow.GetRules() {
+				r := r
+				xs = append(xs, showFlow(&r))
+			}
+		case "iso":
+			for _, r := range isolation.GetRules() {
+				r := r
+				xs = append(xs, showIso(&r))
+			}
+		case "hot":
+			for _, r := range hotspot.GetRules() {
+				r := r
+				xs = append(xs, showHot(&r))
+			}
+		case "cb":
+			for _, r := range cb.GetRules() {
+				r := r
+				xs = append(xs, showCb(&r))
+			}
+		case "sys":
+			for _, r := range system.GetRules() {
+				r := r
+				xs = append(xs, showSys(&r))
+			}
+		case "out":
+			for _, r := range outlier.GetRules() {
+				r := r
+				xs = append(xs, showOut(&r))
+			}
+		default:
+			panic("bad module")
+		}
+		return vh.SortedList(xs)
+	case "getres":
+		res := str(t[2])
+		var xs []string
+		switch t[1] {
+		case "flow":
+			for _, r := range flow.GetRulesOfResource(res) {
+				r := r
+				xs = append(xs, showFlow(&r))
+			}
+		case "iso":
+			for _, r := range isolation.GetRulesOfResource(res) {
+				r := r
+				xs = append(xs, showIso(&r))
+			}
+		case "hot":
+			for _, r := range hotspot.GetRulesOfResource(res) {
+				r := r
+				xs = append(xs, showHot(&r))
+			}
+		case "cb":
+			for _, r := range cb.GetRulesOfResource(res) {
+				r := r
+				xs = append(xs, showCb(&r))
+			}
+		default:
+			panic("bad module")
+		}
+		return vh.List(xs)
+	case "probe":
+		return it.probe(t)
+	}
+	panic("bad op " + op)
+}
+
+func (it *Interp) load(mod, res string, toks []string, perRes bool) string {
+	switch mod {
+	case "flow":
+		var rs []*flow.Rule
+		for _, x := range toks {
+			if x == "-" {
+				rs = append(rs, nil)
+			} else {
+				rs = append(rs, parseFlow(x))
+			}
+		}
+		if perRes {
+			return outcome(flow.LoadRulesOfResource(res, rs))
+		}
+		return outcome(flow.LoadRules(rs))
+	case "iso":
+		var rs []*isolation.Rule
+		for _, x := range toks {
+			if x == "-" {
+				rs = append(rs, nil)
+			} else {
+				rs = append(rs, parseIso(x))
+			}
+		}
+		if perRes {
+			return outcome(isolation.LoadRulesOfResource(res, rs))
+		}
+		return outcome(isolation.LoadRules(rs))
+	case "hot":
+		var rs []*hotspot.Rule
+		for _, x := range toks {
+			if x == "-" {
+				rs = append(rs, nil)
+			} else {
+				rs = append(rs, parseHot(x))
+			}
+		}
+		if perRes {
+			return outcome(hotspot.LoadRulesOfResource(res, rs))
+		}
+		return outcome(hotspot.LoadRules(rs))
+	case "cb":
+		var rs []*cb.Rule
+		for _, x := range toks {
+			if x == "-" {
+				rs = append(rs, nil)
+			} else {
+				rs = append(rs, parseCb(x))
+			}
+		}
+		if perRes {
+			return outcome(cb.LoadRulesOfResource(res, rs))
+		}
+		return outcome(cb.LoadRules(rs))
+	case "sys":
+		var rs []*system.Rule
+		for _, x := range toks {
+			if x == "-" {
+				rs = append(rs, nil)
+			} else {
+				rs = append(rs, parseSys(x))
+			}
+		}
+		if perRes {
+			panic("system has no per-resource path")
+		}
+		return outcome(system.LoadRules(rs))
+	case "out":
+		var rs []*outlier.Rule
+		for _, x := range toks {
+			if x == "-" {
+				rs = append(rs, nil)
+			} else {
+				rs = append(rs, parseOut(x))
+			}
+		}
+		if perRes {
+			if len(rs) > 1 {
+				panic("outlier takes one rule per resource")
+			}
+			var r *outlier.Rule
+			if len(rs) == 1 {
+				r = rs[0]
+			}
+			return outcome(outlier.LoadRuleOfResource(res, r))
+		}
+		return outcome(outlier.LoadRules(rs))
+	}
+	panic("bad module " + mod)
+}
+
+func entry(res string, batch uint32, tt base.TrafficType) string {
+	e, b := sentinel.Entry(res, sentinel.WithBatchCount(batch), sentinel.WithTrafficType(tt))
+	if b != nil {
+		return "block"
+	}
+	e.Exit()
+	return "pass"
+}
+
+// probe sends real traffic after an idle gap (all windows empty, nothing in flight, every retry timeout over).
+func (it *Interp) probe(t []string) string {
+	it.idle()
+	switch t[1] {
+	case "flow":
+		res := str(t[2])
+		for _, r := range flow.GetRulesOfResource(res) {
+			if r.TokenCalculateStrategy != flow.Direct || r.RelationStrategy != flow.CurrentResource {
+				return "?" // warm-up / memory-adaptive / associated decisions are not modelled by C13
+			}
+		}
+		return entry(res, uint32(vh.U(t[3])), base.Outbound)
+	case "iso":
+		return entry(str(t[2]), uint32(vh.U(t[3])), base.Outbound)
+	case "cb":
+		res := str(t[2])
+		e, b := sentinel.Entry(res, sentinel.WithTrafficType(base.Outbound))
+		if b != nil {
+			return "block-first"
+		}
+		sentinel.TraceError(e, errors.New("probe"))
+		it.clk.Ns += 50 * 1e6
+		e.Exit()
+		return entry(res, 1, base.Outbound)
+	case "sys":
+		return entry("sysprobe", 1, base.Inbound)
+	}
+	panic("bad probe")
+}
